@@ -301,6 +301,25 @@ pub fn cmd_run(seed: u64, runs_per_subject: usize, growth_log2: u32, out: &str) 
                 }
             }
         }
+        // with_capacity(n): the index storage holds n indices without reallocation (the region is not pre-sized)
+        if st.ic == "vec" {
+            for n in [0usize, 1, 7, 100] {
+                run += 1;
+                let proto = (st.make)();
+                let mut stacks: Vec<Box<dyn crate::stack::StackT>> = vec![proto.with_capacity(n)];
+                writeln!(w, "{}", json!({"ev": "reset", "subj": st.name, "plain": plain, "nslots": 1, "run": run})).unwrap();
+                let c0 = stacks[0].index_capacity().unwrap_or(0);
+                let mut caps = vec![];
+                for _ in 0..n {
+                    let v = gen_value(&st.shape, &mut rng, false);
+                    if guarded(|| stacks[0].copy_measured(&v)).is_err() {
+                        break;
+                    }
+                    caps.push(stacks[0].index_capacity().unwrap_or(0));
+                }
+                writeln!(w, "{}", json!({"ev": "index_capacity", "s": 1, "announced": n, "cap0": c0, "caps": caps, "len": stacks[0].len(), "run": run})).unwrap();
+            }
+        }
         for (lg, batched) in [(6u32, false), (6, true), (growth_log2, false), (growth_log2, true)] {
             run += 1;
             let mut stacks: Vec<Box<dyn crate::stack::StackT>> = vec![(st.make)()];
